@@ -621,6 +621,22 @@ func init() {
 				}
 				accepted = append(accepted, &BCase{ID: id, Cfg: cfg, Sessions: []BSession{{Ops: ops}}})
 			}
+			// a decorator attached to "*" (which the grammar accepts and no service carries): whatever it is given, an accepted
+			// container reports no cycle and builds everything
+			for si, starArgs := range [][]any{{"@" + c07svc[0]}, {"!tagged " + c07tag[0]}, {"@" + c07svc[1], "@" + c07svc[2], "%" + c07par[0] + "%"}, nil} {
+				for _, idx := range [][]int{{}, {0 + 9 + 6}, {9, 15}} {
+					sel := make([]c07atom, len(idx))
+					for i, x := range idx {
+						sel[i] = c07atoms[x]
+					}
+					before := len(accepted)
+					addProbe(fmt.Sprintf("probe-star/%d/%v", si, idx), sel, 0)
+					if len(accepted) > before {
+						bc := accepted[len(accepted)-1]
+						bc.Cfg.Decorators = append(bc.Cfg.Decorators, Decorator{Tag: "*", Decorator: "pk2.Dec1", Args: starArgs})
+					}
+				}
+			}
 			for size := 0; size <= 2; size++ {
 				combos(n, size, func(idx []int) {
 					if size == 2 && w.Env.Quick() && (idx[0]+idx[1])%4 != 0 {
